@@ -139,6 +139,10 @@ PLAN["C18"] = dict(
 )
 
 PLAN["C19"] = dict(
+    # the unchanged crate exceeds the closure cap in about 1 case in 100 000 (and 1 in 100 000 without
+    # subsumption pruning, patch e4): a discard rate above 0.1 % means derivative sets have stopped being
+    # small, which this check can only report as inconclusive (exit 2), never as a pass
+    max_discard=0.001,
     rule=RX_GEN % 10 + "; bounds n in {0, 1, N-1, N, N+1, 2N, usize::MAX, random} where N is the derivative count measured by the harness's own BFS. Non-trivial = N >= 4; distinct = digest of (landmarks, program).",
     oracle="iter_derivatives(e): first item is e (pointer), no item repeats, item set == closure computed independently by BFS with char_derivative over all class-boundary characters, and the yielded set is closed; try_compile(e,n) is Some <=> N <= n (None for n = 0); compile(e) succeeds; num_states() == N in both",
     assumptions=RX_ASSUME + ["termination of iter_derivatives is only observable up to the cap of 400 derivatives (a case above the cap is a counted discard; a hang is caught by the watchdog and reported as exit 2)"],
